@@ -12,7 +12,7 @@ def guarded(sk, pred):
     for k in sk:
         if pred(k):
             return True
-        if k == 'r':
+        if k in 'rx':
             return False
     return False
 
@@ -22,9 +22,13 @@ def judge(name, cls, sk):
         return 'no-HandleTranslationUnit-found'
     if 'r' not in sk:
         return 'rewriting-clause-not-found'      # unverified, not silently well-formed
+    if 'x' in sk and any(k in sk for k in 'cw') and sk.index('x') < min(sk.index(k) for k in 'cw' if k in sk):
+        return 'silent-return-before-counter-check'       # some inputs leave the function before the out-of-range test
     if not guarded(sk, lambda k: k == 'q'):
         return 'rewrite-before-query-return'
     if not guarded(sk, lambda k: k in 'cw'):
+        if 'x' in sk and ('c' in sk or 'w' in sk) and sk.index('x') < min(sk.index(k) for k in 'cw' if k in sk):
+            return 'silent-return-before-counter-check'       # some inputs leave the function before the out-of-range test
         return 'rewrite-before-counter-check'
     return None
 
@@ -69,7 +73,7 @@ def run(ctx):
         ctx.report('checkCounterValidity-lets-out-of-range-through', f'Transformation::checkCounterValidity mishandles {conv["check_counter_validity_gap"]} (ToCounter -1 = not given)',
                    {'kind': 'clang_delta-conv', 'function': 'Transformation::checkCounterValidity', 'values': conv['check_counter_validity_gap']})
     if not conv['query_returns_before_output']:
-        ctx.report('query-opens-the-output', 'TransformationManager::doTransformation opens the output (getOutStream) before the QueryInstanceOnly return: --query-instances with --output creates or truncates that file',
+        ctx.report('query-opens-the-output', 'the query path (TransformationManager::verify, then doTransformation up to the QueryInstanceOnly return) opens a file for writing: --query-instances with --output creates or truncates that file',
                    {'kind': 'clang_delta-conv', 'function': 'TransformationManager::doTransformation', 'input': '--query-instances=<any> --output=<file>'})
     ctx.sample({'name': regs[0][0], 'class': regs[0][1], 'clauses': ''.join(ex.skeleton(regs[0][1]))})
     ctx.sample({'name': 'simplify-struct', 'clauses': ''.join(ex.skeleton('SimplifyStruct') or ['?'])})
